@@ -18,11 +18,12 @@ def run_property(prop, tier, repo=None):
     repo = repo or load_repo()
     res = mod.run(repo, tier)
     # floors: a rule that matches fewer instances than confirmed by hand is broken
+    res.floor_errors = []
     for rule, n in res.floors.items():
         got = res.rule_instances.get(rule, 0)
         if got < n:
-            raise AnalysisError(f'rule {rule} examined {got} instances, floor is {n} '
-                                f'(anchor vanished or rule no longer matches)')
+            res.floor_errors.append(f'rule {rule} examined {got} instances, floor is {n} '
+                                    f'(anchor vanished or rule no longer matches)')
     return res
 
 
@@ -38,7 +39,7 @@ def main(argv=None):
     t0 = time.time()
     try:
         res = run_property(prop, tier)
-        if tier == 'thorough':
+        if tier == 'thorough' and not res.floor_errors:
             mod = importlib.import_module(f'sa.rules.{prop}')
             from .rules.livecases import CASES
             from .liveness import run_liveness
@@ -52,6 +53,12 @@ def main(argv=None):
         print(f'ANALYSIS-ERROR property={prop} internal error:\n{tb}')
         return 2
     known, new = report.split_findings(prop, res.findings)
+    if res.floor_errors and not new:
+        # fewer instances than confirmed by hand and nothing reported: the analysis no longer sees the code
+        print(f'ANALYSIS-ERROR property={prop} ' + '; '.join(res.floor_errors))
+        return 2
+    for msg in res.floor_errors:
+        print(f'  note: {msg}')
     if args.replay:
         with open(args.replay) as fh:
             want = json.load(fh).get('key')
